@@ -100,7 +100,10 @@ def populate_world_from_dict(world: World, world_dict: dict):
             processor_dict['type'](*processor_dict.get('args', []),
                                    **processor_dict.get('kwargs', {})))
 
-    for entity_dict in entities:
+    # Entities with an explicit id first, so that the automatic ids of
+    # the others cannot clash with them
+    for entity_dict in sorted(entities,
+                              key=lambda e: e.get('id', None) is None):
         entity_id = entity_dict.get('id', None)
 
         components = []
